@@ -51,6 +51,30 @@ func findWalkers(p *Prog) []*Walker {
 	return out
 }
 
+// parentKey strips the last method call of a value key: "x.Index(i)" -> "x"; "" if none.
+func parentKey(key string) string {
+	if !strings.HasSuffix(key, ")") {
+		return ""
+	}
+	depth := 0
+	for i := len(key) - 1; i >= 0; i-- {
+		switch key[i] {
+		case ')':
+			depth++
+		case '(':
+			depth--
+		}
+		if depth == 0 {
+			j := strings.LastIndex(key[:i], ".")
+			if j <= 0 {
+				return ""
+			}
+			return key[:j]
+		}
+	}
+	return ""
+}
+
 // WalkRun is the result of interpreting one function in walker mode.
 type WalkRun struct {
 	Fn     *ssa.Function
@@ -92,6 +116,9 @@ func exploreWalkOpts(p *Prog, fn *ssa.Function, init map[string]uint32, summaris
 			for _, x := range a {
 				if s, ok := x.(Sym); ok && isReflectValue(s.T) {
 					ev = append(ev, Tok{Dom: "kset", Name: s.K, Args: []AVal{cstInt(int64(w.get(s.K)))}})
+					if pk := parentKey(s.K); pk != "" {
+						ev = append(ev, Tok{Dom: "pkset", Name: pk, Args: []AVal{cstInt(int64(w.get(pk)))}})
+					}
 				}
 			}
 			in.Emit("call", site, ev...)
